@@ -240,6 +240,8 @@ pub struct Attrs {
     pub comms: Vec<u32>,
     pub lcomms: Vec<(u32, u32, u32)>,
     pub extra: Vec<u8>,
+    /// identifies the attribute set in RIB queries: written into NEXT_HOP (10.0.hi.lo)
+    pub tag: u16,
 }
 
 pub fn parse_attrs(t: &str) -> Attrs {
@@ -258,6 +260,7 @@ pub fn parse_attrs(t: &str) -> Attrs {
         comms: list(f[1]).iter().map(|x| x.parse().unwrap()).collect(),
         lcomms: list(f[2]).iter().map(|x| { let p: Vec<u32> = x.split(':').map(|y| y.parse().unwrap()).collect(); (p[0], p[1], p[2]) }).collect(),
         extra: list(f[3]).iter().map(|x| x.parse().unwrap()).collect(),
+        tag: 1,
     }
 }
 
@@ -298,7 +301,7 @@ pub fn update_bytes(a: &Attrs, ann: &[u64], wd: &[u64], as4: bool) -> Bytes {
             }
             attr(&mut pa, 0x40, 2, &v);
         }
-        attr(&mut pa, 0x40, 3, &[10, 0, 0, 1]);
+        attr(&mut pa, 0x40, 3, &[10, 0, (a.tag >> 8) as u8, (a.tag & 255) as u8]);
         for code in &a.extra {
             match code {
                 4 => attr(&mut pa, 0x80, 4, &[0, 0, 0, 50]),
